@@ -100,8 +100,9 @@ def generate(tape, tier="quick"):
             c = tape.choice(same) if tape.chance(3, 4) else tape.choice(pool)
             # grid form of the link: 0 - no grid, 1 - the same grid at both ends, 2/3 - the consumer uses another layout
             # of the producer's grid (flipped axis / reversed axes order), so the data is re-arranged AND converted,
-            # 4 - a scalar spread over the consumer's grid by the ValueToGrid adapter
-            ops.append(["link", a, b, c, tape.choice([1.0, 2.5, 300.0]), tape.choice([0, 0, 1, 2, 3, 4])])
+            # 4 - a scalar spread over the consumer's grid by the ValueToGrid adapter, 5 - a field reduced to its mean
+            # by the GridToValue adapter
+            ops.append(["link", a, b, c, tape.choice([1.0, 2.5, 300.0]), tape.choice([0, 0, 1, 2, 3, 4, 5])])
         else:
             ops.append([k, a, b])
     return {"engine": "U", "ops": ops, "clear_first": tape.chance(1, 2)}
@@ -166,7 +167,7 @@ def execute(sc):
                     from ..grids import make_grid, MGrid
                     spa = {"type": "uniform", "dims": [3, 4], "order": "C", "rev": False, "inc": [True, True], "loc": "cells",
                            "spacing": [1.0, 2.0], "origin": [0.0, 0.0]}
-                    spb = dict(spa, **({}, {}, {"inc": [True, False]}, {"rev": True, "order": "F"}, {})[gform])
+                    spb = dict(spa, **({}, {}, {"inc": [True, False]}, {"rev": True, "order": "F"}, {}, {})[gform])
                     ga, gb = make_grid(spa), make_grid(spb)
                     fld_a, fld_b = MGrid(spa).field([0.0, 1.0, 0.125]), MGrid(spb).field([0.0, 1.0, 0.125])
                 if gform == 4:
@@ -176,6 +177,11 @@ def execute(sc):
                 inp = Input(name="i", info=Info(time=dt(0), grid=gb if (gform != 4 or oi % 2) else None, units=c))
                 if gform == 4:
                     out >> ValueToGrid(gb) >> inp
+                elif gform == 5:
+                    from finam.adapters.base import GridToValue
+                    inp = Input(name="i", info=Info(time=dt(0), grid=NoGrid(), units=c))
+                    out >> GridToValue(np.mean) >> inp
+                    fld_b = np.full((), float(np.mean(fld_a)))
                 else:
                     out >> inp
                 inp.ping()
